@@ -7,12 +7,17 @@
     name through the processor map built along the extends chain; <svc>F<Method>.Process: args
     struct, handler, exception mapping, SendReply / SendError), over the TBinary codec and the
     generated struct codecs of Model/ThriftBin.v and the header codec of Model/Headers.v.
+    Every function of the model takes the Thrift protocol as a parameter ([codec]: message header,
+    TApplicationException, generated struct Write / Read, Skip); the unsuffixed names ([rpc_call],
+    [respond], [process_reply] ...) are the TBinaryProtocol instances, the second half of this
+    file states the same theorems for TCompactProtocol ([rpc_call_c compact_codec] ...), both
+    obtained from one proof over the four round-trip laws [codec_ok].
     [rpc_call fuel e pm h registry m hdrs args] returns what the caller gets, the handler log and
     the reply the server produced; [registry] says whether the client transport dispatches replies
     by op id (adapter, NATS) or hands them over directly (HTTP, in-memory). *)
 From Coq Require Import ZArith List Bool Lia.
-From FV Require Import Base.Res Base.Bytes Base.GoSem Model.Headers Model.Receivers Model.ThriftBin Model.GenCall
-     Proofs.ThriftBinProofs Proofs.ThriftBinGoProofs Proofs.GenCallProofs.
+From FV Require Import Base.Res Base.Bytes Base.GoSem Model.Headers Model.Receivers Model.ThriftBin Model.ThriftCompact
+     Model.GenCall Proofs.ThriftBinProofs Proofs.ThriftBinGoProofs Proofs.GenCallProofs.
 Import ListNotations.
 Open Scope Z_scope.
 
@@ -46,7 +51,7 @@ Theorem c03_call_faithful : forall e pm h registry m hdrs opid args,
     exists reply,
       rpc_call fuel e pm h registry m hdrs args =
       Ok (map_outcome e m (h (m_wire m) args), [(m_wire m, args)], Some reply).
-Proof. exact call_faithful. Qed.
+Proof. exact (call_faithful bin_codec bin_codec_ok). Qed.
 Print Assumptions c03_call_faithful.
 
 (** Methods inherited through extends behave identically: whatever method the generated client of
@@ -78,7 +83,7 @@ Theorem c03_inherited_call_faithful : forall fuel_s ss s go e h registry m hdrs 
     exists reply,
       rpc_call fuel e (proc_entries fuel_s ss s) h registry m hdrs args =
       Ok (map_outcome e m (h (m_wire m) args), [(m_wire m, args)], Some reply).
-Proof. exact service_call_faithful. Qed.
+Proof. exact (service_call_faithful bin_codec bin_codec_ok). Qed.
 Print Assumptions c03_inherited_call_faithful.
 
 (** Oneway: the caller gets nil, the handler is invoked exactly once with the caller's arguments
@@ -95,7 +100,7 @@ Theorem c03_oneway_no_reply : forall e pm h registry m hdrs opid args,
     exists out,
       rpc_call fuel e pm h registry m hdrs args = Ok (CRet None, [(m_wire m, args)], out) /\
       (forall ov, h (m_wire m) args = HRet ov -> out = None).
-Proof. exact oneway_no_reply. Qed.
+Proof. exact (oneway_no_reply bin_codec bin_codec_ok). Qed.
 Print Assumptions c03_oneway_no_reply.
 
 (** A method the processor does not serve is rejected with UNKNOWN_METHOD "Unknown function <name>";
@@ -112,7 +117,7 @@ Theorem c03_unknown_method_rejected : forall e pm h m hdrs opid args,
     exists reply,
       rpc_call fuel e pm h false m hdrs args =
       Ok (CAppExc AE_UNKNOWN_METHOD (s_unknown_function ++ m_wire m), [], Some reply).
-Proof. exact unknown_method_rejected. Qed.
+Proof. exact (unknown_method_rejected bin_codec bin_codec_ok). Qed.
 Print Assumptions c03_unknown_method_rejected.
 
 (** The caller rejects a reply that carries another method name (WRONG_METHOD_NAME) or a message
@@ -122,7 +127,7 @@ Theorem c03_wrong_method_or_type_rejected : forall e m fuel reply hs r1 nm typ s
   (nm <> m_wire m -> process_reply fuel e m reply = CAppExc AE_WRONG_METHOD_NAME (m_wire m ++ s_wrong_method)) /\
   (nm = m_wire m -> typ <> T_EXCEPTION -> typ <> T_REPLY ->
    process_reply fuel e m reply = CAppExc AE_INVALID_MESSAGE_TYPE (m_wire m ++ s_invalid_type)).
-Proof. exact wrong_reply_rejected. Qed.
+Proof. exact (wrong_reply_rejected bin_codec). Qed.
 Print Assumptions c03_wrong_method_or_type_rejected.
 
 (** the codecs the call is built from *)
@@ -213,4 +218,269 @@ Proof.
       * split; [intros _; eexists; split; [reflexivity|]|intros H; discriminate H].
         apply gwf_bytes; [left; reflexivity|cbn; lia].
       * split; [intros H; discriminate H|intros _; reflexivity].
+Qed.
+
+(** * The same call over TCompactProtocol
+
+    [compact_codec]: the message envelope of compact_protocol.go (WriteMessageBegin: protocol id 0x82,
+    version 1 | type << 5, varint seqid, varint-length name; ReadMessageBegin checks id and version),
+    tApplicationException.Write / Read driven over compact field headers, and the args / result
+    structs through the generated Write / Read over Model/ThriftCompact.v ([gcwrite] / [gcread], see
+    c02_compact_roundtrip).  The statements are those above with [rpc_call_c compact_codec] etc. *)
+
+(** the envelope: ReadMessageBegin reads back what WriteMessageBegin wrote; only three bits of the
+    message type travel (CALL 1, REPLY 2, EXCEPTION 3, ONEWAY 4 fit) *)
+Theorem c03_compact_message_header_roundtrip : forall nm typ seq rest,
+  0 <= typ < 8 -> zlen nm < 2147483648 -> in_range 4 seq ->
+  cmsg_begin_dec (cmsg_begin_enc nm typ seq ++ rest) = Ok (nm, typ, seq, rest).
+Proof. exact cmsg_begin_roundtrip. Qed.
+Print Assumptions c03_compact_message_header_roundtrip.
+
+Theorem c03_compact_application_exception_roundtrip : forall kind text rest fuel,
+  (3 <= fuel)%nat -> zlen text < 2147483648 -> in_range 4 kind ->
+  cappexc_dec fuel (cappexc_enc kind text ++ rest) = Ok (text, kind, rest).
+Proof. exact cappexc_roundtrip. Qed.
+Print Assumptions c03_compact_application_exception_roundtrip.
+
+(** both protocols satisfy the four laws the call theorems are proved from *)
+Theorem c03_codecs_lawful : codec_ok bin_codec /\ codec_ok compact_codec.
+Proof. exact (conj bin_codec_ok compact_codec_ok). Qed.
+Print Assumptions c03_codecs_lawful.
+
+Theorem c03_compact_call_faithful : forall e pm h registry m hdrs opid args,
+  plookup (m_wire m) pm = Some m ->
+  m_oneway m = false ->
+  header_size hdrs < 2147483648 -> Headers.lookup opid_header hdrs = Some opid ->
+  header_size (response_headers (to_map hdrs) opid) < 2147483648 ->
+  zlen (m_wire m) < 2147483648 ->
+  gwf e (TRef (m_args m)) (VStruct args) ->
+  outcome_ok e m (h (m_wire m) args) ->
+  (registry = true ->
+   (exists n, parse_uint64 opid = Some n) /\
+   forall reply, respond_c compact_codec e (response_headers (to_map hdrs) opid) m (h (m_wire m) args) = Ok (Some reply) ->
+                 zlen reply < 2147483648) ->
+  exists fuel0, forall fuel, (fuel0 <= fuel)%nat ->
+    exists reply,
+      rpc_call_c compact_codec fuel e pm h registry m hdrs args =
+      Ok (map_outcome e m (h (m_wire m) args), [(m_wire m, args)], Some reply).
+Proof. exact (call_faithful compact_codec compact_codec_ok). Qed.
+Print Assumptions c03_compact_call_faithful.
+
+Theorem c03_compact_inherited_call_faithful : forall fuel_s ss s go e h registry m hdrs opid args,
+  NoDup (map fst (proc_entries fuel_s ss s)) ->
+  client_resolve fuel_s ss s go = Some m ->
+  m_oneway m = false ->
+  header_size hdrs < 2147483648 -> Headers.lookup opid_header hdrs = Some opid ->
+  header_size (response_headers (to_map hdrs) opid) < 2147483648 ->
+  zlen (m_wire m) < 2147483648 ->
+  gwf e (TRef (m_args m)) (VStruct args) ->
+  outcome_ok e m (h (m_wire m) args) ->
+  (registry = true ->
+   (exists n, parse_uint64 opid = Some n) /\
+   forall reply, respond_c compact_codec e (response_headers (to_map hdrs) opid) m (h (m_wire m) args) = Ok (Some reply) ->
+                 zlen reply < 2147483648) ->
+  exists fuel0, forall fuel, (fuel0 <= fuel)%nat ->
+    exists reply,
+      rpc_call_c compact_codec fuel e (proc_entries fuel_s ss s) h registry m hdrs args =
+      Ok (map_outcome e m (h (m_wire m) args), [(m_wire m, args)], Some reply).
+Proof. exact (service_call_faithful compact_codec compact_codec_ok). Qed.
+Print Assumptions c03_compact_inherited_call_faithful.
+
+Theorem c03_compact_oneway_no_reply : forall e pm h registry m hdrs opid args,
+  plookup (m_wire m) pm = Some m ->
+  m_oneway m = true ->
+  header_size hdrs < 2147483648 -> Headers.lookup opid_header hdrs = Some opid ->
+  zlen (m_wire m) < 2147483648 ->
+  gwf e (TRef (m_args m)) (VStruct args) ->
+  exists fuel0, forall fuel, (fuel0 <= fuel)%nat ->
+    exists out,
+      rpc_call_c compact_codec fuel e pm h registry m hdrs args = Ok (CRet None, [(m_wire m, args)], out) /\
+      (forall ov, h (m_wire m) args = HRet ov -> out = None).
+Proof. exact (oneway_no_reply compact_codec compact_codec_ok). Qed.
+Print Assumptions c03_compact_oneway_no_reply.
+
+Theorem c03_compact_unknown_method_rejected : forall e pm h m hdrs opid args,
+  plookup (m_wire m) pm = None ->
+  m_oneway m = false ->
+  header_size hdrs < 2147483648 -> Headers.lookup opid_header hdrs = Some opid ->
+  header_size (response_headers (to_map hdrs) opid) < 2147483648 ->
+  zlen (s_unknown_function ++ m_wire m) < 2147483648 ->
+  gwf e (TRef (m_args m)) (VStruct args) ->
+  (forall w, to_wire e (TRef (m_args m)) (VStruct args) = Ok w -> wdepth w <= 64) ->
+  exists fuel0, forall fuel, (fuel0 <= fuel)%nat ->
+    exists reply,
+      rpc_call_c compact_codec fuel e pm h false m hdrs args =
+      Ok (CAppExc AE_UNKNOWN_METHOD (s_unknown_function ++ m_wire m), [], Some reply).
+Proof. exact (unknown_method_rejected compact_codec compact_codec_ok). Qed.
+Print Assumptions c03_compact_unknown_method_rejected.
+
+(** wrong method name / wrong message type, whatever follows the envelope *)
+Theorem c03_compact_wrong_method_or_type_rejected : forall e m fuel reply hs r1 nm typ seq r2,
+  read_header reply = Ok (hs, r1) -> cmsg_begin_dec r1 = Ok (nm, typ, seq, r2) ->
+  (nm <> m_wire m -> process_reply_c compact_codec fuel e m reply = CAppExc AE_WRONG_METHOD_NAME (m_wire m ++ s_wrong_method)) /\
+  (nm = m_wire m -> typ <> T_EXCEPTION -> typ <> T_REPLY ->
+   process_reply_c compact_codec fuel e m reply = CAppExc AE_INVALID_MESSAGE_TYPE (m_wire m ++ s_invalid_type)).
+Proof. exact (wrong_reply_rejected compact_codec). Qed.
+Print Assumptions c03_compact_wrong_method_or_type_rejected.
+
+(** an EXCEPTION reply written by SendError / writeException is read by the caller as that
+    TApplicationException (type 100, RESPONSE_TOO_LARGE: TTransportException 101, as coded) *)
+Theorem c03_compact_exception_reply : forall e m rh kind text fuel,
+  header_size rh < 2147483648 -> zlen (m_wire m) < 2147483648 ->
+  in_range 4 kind -> zlen text < 2147483648 -> (3 <= fuel)%nat ->
+  process_reply_c compact_codec fuel e m (exception_msg_c compact_codec rh (m_wire m) kind text) =
+  if kind =? AE_RESPONSE_TOO_LARGE then CTransport TE_RESPONSE_TOO_LARGE text else CAppExc kind text.
+Proof. exact (exception_reply_read compact_codec compact_codec_ok). Qed.
+Print Assumptions c03_compact_exception_reply.
+
+(** non-vacuity under compact: the calls of [c03_ex_calls], and the bytes of one request and its reply:
+    header block (version 0, size 27, "_opid"="7", "_cid"="c"), 0x82, 0x21 = version 1 | CALL << 5,
+    seqid 0, name length 4 "ping", field 1 (delta 1) i32 zigzag(7) = 14, STOP;
+    reply: header block, 0x82, 0x41 = version 1 | REPLY << 5, 0, 4 "ping", field 0 (long form: type 8,
+    zigzag id 0) length 2 "hi", STOP *)
+Example c03_compact_ex_calls :
+  (exists reply, rpc_call_c compact_codec 50 ex_env ex_pm (fun _ _ => HRet (Some (VBytes [104; 105]))) true ex_ping ex_hdrs [Some (VInt 7)]
+     = Ok (CRet (Some (VBytes [104; 105])), [([112; 105; 110; 103], [Some (VInt 7)])], Some reply))
+  /\ (exists reply, rpc_call_c compact_codec 50 ex_env ex_pm (fun _ _ => HDeclared 1 (VStruct [Some (VBytes [110; 111])]) []) true ex_ping ex_hdrs [Some (VInt (-1))]
+     = Ok (CDeclared 1 (VStruct [Some (VBytes [110; 111])]), [([112; 105; 110; 103], [Some (VInt (-1))])], Some reply))
+  /\ (exists reply, rpc_call_c compact_codec 50 ex_env ex_pm (fun _ _ => HOther [120]) false ex_ping ex_hdrs [Some (VInt 0)]
+     = Ok (CAppExc 6 (s_internal_error ++ [112; 105; 110; 103] ++ s_colon ++ [120]), [([112; 105; 110; 103], [Some (VInt 0)])], Some reply))
+  /\ (exists reply, rpc_call_c compact_codec 50 ex_env ex_pm (fun _ _ => HAppExc 42 [113]) true ex_nop ex_hdrs []
+     = Ok (CAppExc 42 [113], [([110; 111; 112], [])], Some reply))
+  /\ rpc_call_c compact_codec 50 ex_env ex_pm (fun _ _ => HRet None) true ex_fire ex_hdrs [Some (VInt 3)]
+     = Ok (CRet None, [([102; 105; 114; 101], [Some (VInt 3)])], None)
+  /\ (exists reply, rpc_call_c compact_codec 50 ex_env (proc_entries 3 ex_services 1) (fun _ _ => HRet None) false ex_nop ex_hdrs []
+     = Ok (CAppExc 1 (s_unknown_function ++ [110; 111; 112]), [], Some reply)).
+Proof. repeat split; try (eexists; vm_compute; reflexivity); vm_compute; reflexivity. Qed.
+
+Example c03_compact_ex_bytes :
+  client_prepare_c compact_codec ex_env ex_ping ex_hdrs [Some (VInt 7)] =
+  Ok ([0; 0;0;0;27; 0;0;0;5; 95;111;112;105;100; 0;0;0;1; 55; 0;0;0;4; 95;99;105;100; 0;0;0;1; 99]
+      ++ [130; 33; 0; 4; 112;105;110;103] ++ [21; 14; 0])
+  /\ (forall req, client_prepare_c compact_codec ex_env ex_ping ex_hdrs [Some (VInt 7)] = Ok req ->
+      server_process_c compact_codec 50 ex_env ex_pm (fun _ _ => HRet (Some (VBytes [104; 105]))) req =
+      Ok (Some ([0; 0;0;0;27; 0;0;0;5; 95;111;112;105;100; 0;0;0;1; 55; 0;0;0;4; 95;99;105;100; 0;0;0;1; 99]
+                ++ [130; 65; 0; 4; 112;105;110;103] ++ [8; 0; 2; 104;105; 0]),
+          [([112; 105; 110; 103], [Some (VInt 7)])])).
+Proof.
+  split; [vm_compute; reflexivity|]. intros req H. vm_compute in H. injection H as <-. vm_compute. reflexivity.
+Qed.
+
+(** * Several calls in flight at once through one generated client
+
+    Model/GenCallConc.v composes the registry model of C01 (Model/Registry.v: Register / Unregister /
+    Execute / dispatch and Request of the adapter and NATS transports, as an interleaving small-step
+    system over callers, send goroutines, clock, environment and the single reader) with the call
+    model above: the frame [reply_frame j] the reader dispatches for call [j] carries the op id that
+    Execute reads from the header block of the server's reply to [j] ([server_reply j], a function
+    of the request and of the handler's outcome for it alone -- the generated processor keeps no
+    state between requests), and [conc_outcome i o] is what the generated client method returns to
+    caller [i] once Request has returned [o] (processReply on the frame's payload).
+    [alone_outcome i] is the outcome of [rpc_call_c] for the same call made alone. *)
+From FV Require Import Model.Registry Model.GenCallConc Proofs.RegistryProofs Proofs.GenCallConcProofs.
+
+(** For either protocol ([cd]), either transport ([tk]), the pinned or the repaired dispatch ([b]), any
+    number [n] of callers whose op ids are pairwise distinct (C17) and each of whose replies is
+    delivered when the call is made alone ([delivered_aloneb]: Execute finds the caller's op id in
+    the reply's header block), EVERY event sequence the registry model accepts -- any interleaving of
+    callers, send goroutines, timeouts and reader steps -- in which the frames reaching dispatch are
+    server replies to these calls in any order, duplicated or late ([net_okb]; on NATS also status
+    503 messages): a two-way caller to which Request returns a frame gets exactly the outcome of
+    the same call made alone.  (Corollary of c01_own_response and of the server being a function.) *)
+Theorem c03_concurrent_calls_independent : forall cd fuel e pm calls tk b dl n evs s i f,
+  distinct_ops (call_op calls) n ->
+  all_below n (delivered_aloneb cd fuel e pm calls) = true ->
+  run tk b (init (call_op calls) dl n) evs = Some s ->
+  net_okb cd fuel e pm calls tk n evs = true ->
+  (i < n)%nat -> m_oneway (cc_m (calls i)) = false ->
+  c_phase (callers s i) = CDone (OOk f) ->
+  exists c, conc_outcome cd fuel e pm calls i (OOk f) = Some c /\ alone_outcome cd fuel e pm calls i = Some c.
+Proof. exact concurrent_calls_independent. Qed.
+Print Assumptions c03_concurrent_calls_independent.
+
+(** ... because the frame it was handed is the reply to its own request, never another caller's *)
+Theorem c03_concurrent_calls_own_reply : forall cd fuel e pm calls tk b dl n evs s i f,
+  distinct_ops (call_op calls) n ->
+  all_below n (delivered_aloneb cd fuel e pm calls) = true ->
+  run tk b (init (call_op calls) dl n) evs = Some s ->
+  net_okb cd fuel e pm calls tk n evs = true ->
+  (i < n)%nat ->
+  c_phase (callers s i) = CDone (OOk f) ->
+  reply_frame cd fuel e pm calls i = Some f.
+Proof. exact concurrent_calls_own_reply. Qed.
+Print Assumptions c03_concurrent_calls_own_reply.
+
+(** With the hypotheses of [c03_call_faithful] for each of the [n] calls (a lawful protocol, methods
+    served, well-typed arguments and handler outcomes, numeric op ids, replies that fit a frame):
+    in every interleaving every caller that gets a frame gets [map_outcome] of its own handler's
+    outcome. *)
+Theorem c03_concurrent_calls_faithful : forall cd, codec_ok cd -> forall e pm calls n,
+  distinct_ops (call_op calls) n ->
+  (forall j, (j < n)%nat ->
+     let c := calls j in
+     exists opid,
+       plookup (m_wire (cc_m c)) pm = Some (cc_m c) /\
+       m_oneway (cc_m c) = false /\
+       header_size (cc_hdrs c) < 2147483648 /\ Headers.lookup opid_header (cc_hdrs c) = Some opid /\
+       header_size (response_headers (to_map (cc_hdrs c)) opid) < 2147483648 /\
+       zlen (m_wire (cc_m c)) < 2147483648 /\
+       gwf e (TRef (m_args (cc_m c))) (VStruct (cc_args c)) /\
+       outcome_ok e (cc_m c) (cc_h c (m_wire (cc_m c)) (cc_args c)) /\
+       (exists k, parse_uint64 opid = Some k) /\
+       (forall reply, respond_c cd e (response_headers (to_map (cc_hdrs c)) opid) (cc_m c)
+                                (cc_h c (m_wire (cc_m c)) (cc_args c)) = Ok (Some reply) ->
+                      zlen reply < 2147483648)) ->
+  exists fuel0, forall fuel, (fuel0 <= fuel)%nat ->
+    forall tk b dl evs s i f,
+      run tk b (init (call_op calls) dl n) evs = Some s ->
+      net_okb cd fuel e pm calls tk n evs = true ->
+      (i < n)%nat -> c_phase (callers s i) = CDone (OOk f) ->
+      conc_outcome cd fuel e pm calls i (OOk f) =
+      Some (map_outcome e (cc_m (calls i)) (cc_h (calls i) (m_wire (cc_m (calls i))) (cc_args (calls i)))).
+Proof. exact concurrent_calls_faithful. Qed.
+Print Assumptions c03_concurrent_calls_faithful.
+
+(** Non-vacuity: three calls in flight through the derived client of the example program, op ids 7, 8, 9:
+    ping(7) answered "hi", ping(-1) answered with the declared exception, nop answered with a
+    TApplicationException.  The replies arrive in the order 2, 0, 0 again (dropped), 1 and are taken in
+    yet another order; every hypothesis of [c03_concurrent_calls_independent] holds, the run is accepted,
+    and every caller ends with the outcome of its call made alone (both protocols). *)
+Definition ex_conc_calls : nat -> ccall := fun i =>
+  match i with
+  | 0%nat => mkCcall ex_ping [ (opid_header, [55]); (cid_hdr, [99]) ] [Some (VInt 7)]
+                     (fun _ _ => HRet (Some (VBytes [104; 105])))
+  | 1%nat => mkCcall ex_ping [ (opid_header, [56]); (cid_hdr, [99]) ] [Some (VInt (-1))]
+                     (fun _ _ => HDeclared 1 (VStruct [Some (VBytes [110; 111])]) [])
+  | _ => mkCcall ex_nop [ (opid_header, [57]) ] [] (fun _ _ => HAppExc 42 [113])
+  end.
+Definition ex_fr (j : nat) (op : Z) : frame := {| f_op := op; f_tag := Z.of_nat j |}.
+Definition ex_conc_evs : list ev :=
+  [ERegister 0; ERegister 1; ERegister 2; ERelease 0; ERelease 1; ERelease 2; ESendOk 1; ESendOk 0; ESendOk 2;
+   EArrive (ex_fr 2 9); EDeliver; EArrive (ex_fr 0 7); EDeliver; EArrive (ex_fr 0 7); EDeliver;
+   EArrive (ex_fr 1 8); EDeliver;
+   ETake 1 TResult; ETake 2 TResult; EUnregister 2; ETake 0 TResult; EUnregister 0; EUnregister 1].
+
+Example c03_concurrent_nonvacuous :
+  forall cd, cd = bin_codec \/ cd = compact_codec ->
+  distinct_ops (call_op ex_conc_calls) 3
+  /\ all_below 3 (delivered_aloneb cd 50 ex_env ex_pm ex_conc_calls) = true
+  /\ net_okb cd 50 ex_env ex_pm ex_conc_calls KAdapter 3 ex_conc_evs = true
+  /\ match run KAdapter false (init (call_op ex_conc_calls) (fun _ => true) 3) ex_conc_evs with
+     | Some s =>
+       c_phase (callers s 0) = CDone (OOk (ex_fr 0 7))
+       /\ c_phase (callers s 1) = CDone (OOk (ex_fr 1 8))
+       /\ c_phase (callers s 2) = CDone (OOk (ex_fr 2 9))
+       /\ conc_outcome cd 50 ex_env ex_pm ex_conc_calls 0 (OOk (ex_fr 0 7)) = Some (CRet (Some (VBytes [104; 105])))
+       /\ conc_outcome cd 50 ex_env ex_pm ex_conc_calls 1 (OOk (ex_fr 1 8)) = Some (CDeclared 1 (VStruct [Some (VBytes [110; 111])]))
+       /\ conc_outcome cd 50 ex_env ex_pm ex_conc_calls 2 (OOk (ex_fr 2 9)) = Some (CAppExc 42 [113])
+       /\ alone_outcome cd 50 ex_env ex_pm ex_conc_calls 0 = Some (CRet (Some (VBytes [104; 105])))
+       /\ alone_outcome cd 50 ex_env ex_pm ex_conc_calls 1 = Some (CDeclared 1 (VStruct [Some (VBytes [110; 111])]))
+       /\ alone_outcome cd 50 ex_env ex_pm ex_conc_calls 2 = Some (CAppExc 42 [113])
+     | None => False
+     end.
+Proof.
+  intros cd Hcd. split.
+  - intros i j Hi Hj. destruct i as [|[|[|i]]]; destruct j as [|[|[|j]]]; try lia;
+      intros H; vm_compute in H; try discriminate H; reflexivity.
+  - destruct Hcd as [-> | ->]; vm_compute; repeat split.
 Qed.
